@@ -188,7 +188,7 @@ func c04Gen(t *rapid.T) c04Plan {
 	p := c04Plan{}
 	p.Services = c04GenServices(t, 6)
 	p.Order2 = rapid.Permutation(vfIota(len(p.Services))).Draw(t, "order2")
-	p.Detour = rapid.IntRange(0, 4).Draw(t, "detour")
+	p.Detour = rapid.IntRange(0, 5).Draw(t, "detour")
 	p.DetourOn = rapid.IntRange(0, len(p.Services)-1).Draw(t, "detour-on")
 	p.Restart = rapid.Bool().Draw(t, "restart")
 	p.Requests = c04GenRequests(t, p.Services)
@@ -236,6 +236,7 @@ func c04Run(t *testing.T, p c04Plan) (res vfResult) {
 		}
 		r2 := w.newRouter("r2")
 		r2Extra := false
+		var intruderCmd *vfPendingCmd
 		if p.Detour == 1 {
 			// a service that takes (and gives back) bindings others will want
 			victim := p.Services[p.DetourOn%len(p.Services)]
@@ -277,6 +278,15 @@ func c04Run(t *testing.T, p c04Plan) (res vfResult) {
 				}
 				res.label("detour:rebind")
 			}
+			if p.Detour == 5 && i == p.DetourOn%len(p.Services) {
+				// an intruder claims the same bindings and is still waiting for its (slow) target to become healthy when
+				// the rightful service is deployed: the intruder's deploy must come to nothing
+				w.target("tgx:80").setProbeScript([]vfProbeStep{{Kind: "slow", Status: 200, DelayMs: 400}}, vfProbeStep{Kind: "ok"})
+				intruder := vfSvcSpec{Name: "intruder", Hosts: s.Hosts, Prefixes: s.Prefixes}
+				intruderCmd = w.goCmd(func() error { return vfDeploySpec(r2, intruder, "tgx:80") })
+				synctest.Wait()
+				res.label("detour:intruder-waiting-for-health")
+			}
 			if p.Detour == 4 && i == p.DetourOn%len(p.Services) {
 				// the same hosts, another path first: the redeploy changes nothing but the prefix list
 				other := vfSvcSpec{Name: s.Name, Hosts: s.Hosts, Prefixes: []string{"/zz-detour"}}
@@ -290,6 +300,11 @@ func c04Run(t *testing.T, p c04Plan) (res vfResult) {
 				res.failf("deploy-error", "router2: deploy of %+v failed: %v", s, err)
 				return
 			}
+		}
+		if intruderCmd != nil {
+			time.Sleep(time.Second)
+			<-intruderCmd.done
+			synctest.Wait()
 		}
 		if r2Extra {
 			// removed only after everything else is in place
